@@ -583,6 +583,9 @@ func specHasProp(sp *FuncSpec, P string) bool {
 	if sp.NoPanic != nil && sp.NoPanic.hasProp(P) {
 		return true
 	}
+	if sp.CtxAware != nil && sp.CtxAware.hasProp(P) {
+		return true
+	}
 	return false
 }
 
